@@ -78,6 +78,7 @@ type Cfg struct {
 	MinSpaceGiB          float64  `json:"min_space_gib,omitempty"`
 	UseHQ                bool     `json:"use_hq,omitempty"`
 	HQBatchSize          int      `json:"hq_batch_size,omitempty"`
+	HQBatchConcurrency   int      `json:"hq_batch_concurrency,omitempty"` // concurrent sub-fetches per hand-out (default 1)
 	WARCSizeMB           int      `json:"warc_size_mb,omitempty"`
 }
 
